@@ -1,6 +1,7 @@
 package props
 
 import (
+	"context"
 	"fmt"
 	"sort"
 	"strings"
@@ -33,7 +34,7 @@ func init() {
 		ID:      "C13",
 		Level:   "exploration",
 		Workers: 16,
-		Rule: fmt.Sprintf("complete matrix entry mode {create, subscribe, subscribe-or-create} x existing datatype {none, same type, other type, same type already subscribed by this client} x other client {absent, sequentially first, racing in parallel (2-5 clients)} x point of history {fresh, after operations, after a snapshot exists} x four types = %d cells, repeated with different seeds (operations before / after, number of racers). Expected outcome from the statement: create on a key that exists, subscribe on a missing key, any mode on a key of another type => the error handler receives an error, the stored data are unchanged (store diff empty, volatile timestamps ignored), no transition to SUBSCRIBED; every report of the state-change handler is truthful (it starts at the state the datatype was in, changes it, and the last one ends at the state the datatype is in); otherwise success: state SUBSCRIBED, the state-change handler reports -> SUBSCRIBED exactly once, the first readable state equals the replay of the log up to the response checkpoint; racing clients: exactly one datatype document per (collection, key) and outcomes consistent with some serial order; in every second repetition of the non-racing cells the entering client's first request is aborted by the server (one database command of its handler fails): the abort must reach the error handler, must not make the datatype SUBSCRIBED, must change nothing stored when the failed command is a read, and the retry is judged like a first entry; in half of the repetitions of the single-entry cells a successful entry response is delivered a second time: same state, no second report of SUBSCRIBED; ",
+		Rule: fmt.Sprintf("complete matrix entry mode {create, subscribe, subscribe-or-create} x existing datatype {none, same type, other type, same type already subscribed by this client} x other client {absent, sequentially first, racing in parallel (2-5 clients)} x point of history {fresh, after operations, after a snapshot exists} x four types = %d cells, repeated with different seeds (operations before / after, number of racers). Expected outcome from the statement: create on a key that exists, subscribe on a missing key, any mode on a key of another type => the error handler receives an error, the stored data are unchanged (store diff empty, volatile timestamps ignored), no transition to SUBSCRIBED; every report of the state-change handler is truthful (it starts at the state the datatype was in, changes it, and the last one ends at the state the datatype is in); otherwise success: state SUBSCRIBED, the state-change handler reports -> SUBSCRIBED exactly once, the first readable state equals the replay of the log up to the response checkpoint; racing clients: exactly one datatype document per (collection, key) and outcomes consistent with some serial order; in every second repetition of the non-racing cells the entering client's first request is aborted by the server (one database command of its handler fails): the abort must reach the error handler, must not make the datatype SUBSCRIBED, must change nothing stored when the failed command is a read, and the retry is judged like a first entry; in half of the repetitions of the single-entry cells a successful entry response is delivered a second time: same state, no second report of SUBSCRIBED; in a third of all cells, once everything has settled, one more subscriber enters the key (subscribe / subscribe-or-create at random): a REALTIME client of the SDK over real grpc and a real MQTT client whose broker connection was cut, and is refused from then on, after it had connected - subscribing its notification topic fails; SUBSCRIBED must be reported exactly once and the first readable state must equal the replay of the stored log (what the broker fault itself causes is counted: fault reached / entry not completed); ",
 			c13Cells()) +
 			"non-trivial = every cell; distinct = cell x repetition",
 		Assumptions: []string{
@@ -744,7 +745,126 @@ func runC13(c *core.Case) *core.Result {
 			return c.Violation(sig, "%s", msg)
 		}
 	}
+	if r.Intn(3) == 0 {
+		if res := c13BrokerFault(c, w, key, typ); res != nil {
+			return res
+		}
+	}
 	return c.Held()
+}
+
+// c13BrokerFault: one more subscriber enters the key, a REALTIME client of the SDK (real grpc,
+// real MQTT client) for which the notification broker has become unreachable after it
+// connected. Subscribing its notification topic fails then; whatever the SDK makes of that
+// failure, the statement about a new subscriber holds: SUBSCRIBED is reported once and the first
+// readable state is the state of the log. What the broker fault itself causes (an entry that
+// does not complete) is counted, not judged.
+func c13BrokerFault(c *core.Case, w *svcWorld, key, typ string) *core.Result {
+	var ref *bed.DT
+	for _, cl := range w.cls {
+		for _, d := range cl.DTs {
+			if d.Key == key && d.Typ == typ && d.DT.GetState() == model.StateOfDatatype_SUBSCRIBED {
+				ref = d
+			}
+		}
+	}
+	if ref == nil {
+		return nil
+	}
+	front, err := w.b.Front()
+	if err != nil {
+		return nil
+	}
+	known := map[string]bool{}
+	for _, id := range w.b.MQ.ClientIDs() {
+		known[id] = true
+	}
+	cli := w.b.NewSDKClient(front, "colA", "rtfault", model.SyncType_REALTIME)
+	out := bed.Guard(10e9, func(ctx context.Context) error { return cli.Connect() })
+	if out.Err != nil || out.TimedOut || out.Panic != "" {
+		c.Count("diag_broker_fault_client_did_not_connect", 1)
+		return nil
+	}
+	defer func() {
+		closed := make(chan struct{})
+		go func() {
+			defer close(closed)
+			defer func() { recover() }()
+			cli.Close()
+		}()
+		select {
+		case <-closed:
+		case <-time.After(3 * time.Second):
+		}
+	}()
+	id := ""
+	for t := 0; t < 200 && id == ""; t++ {
+		for _, x := range w.b.MQ.ClientIDs() {
+			if !known[x] {
+				id = x
+			}
+		}
+		if id == "" {
+			time.Sleep(5 * time.Millisecond)
+		}
+	}
+	if id == "" {
+		c.Count("diag_broker_fault_client_not_seen_by_broker", 1)
+		return nil
+	}
+	w.b.MQ.Refuse(id)
+	time.Sleep(100 * time.Millisecond) // the client's MQTT layer notices the cut connection
+	mode := []string{bed.Subscribe, bed.SubscribeOrCreate}[c.Rng.Intn(2)]
+	c.Step("the notification broker is unreachable for the REALTIME client rtfault, which now enters key %s by %s", key, mode)
+	bc := &bed.Client{B: w.b, Col: "colA", Alias: "rtfault", Cli: cli, SDK: true}
+	var d *bed.DT
+	if pm := safely(func() { d = bc.Open(key, typ, mode) }); pm != "" {
+		return c.Violation("client-panic", "entering key %q while the notification broker is unreachable panicked: %s", key, pm)
+	}
+	if d == nil {
+		c.Count("diag_broker_fault_open_returned_nothing", 1)
+		return nil
+	}
+	nSub := func() int {
+		_, tr, _ := d.Handler()
+		n := 0
+		for _, t := range tr {
+			if t.New == model.StateOfDatatype_SUBSCRIBED {
+				n++
+			}
+		}
+		return n
+	}
+	for t := 0; t < 500 && nSub() == 0; t++ {
+		time.Sleep(10 * time.Millisecond)
+	}
+	if nSub() == 0 {
+		c.Count("diag_broker_fault_entry_not_completed", 1)
+		return nil
+	}
+	for t := 0; t < 100; t++ { // a report that is due is awaited for a bounded time
+		if errs, _, _ := d.Handler(); len(errs) > 0 {
+			break
+		}
+		time.Sleep(10 * time.Millisecond)
+	}
+	if errs, _, _ := d.Handler(); len(errs) > 0 {
+		c.Count("entries_whose_topic_subscription_failed", 1)
+	} else {
+		c.Count("diag_broker_fault_without_error_report", 1)
+	}
+	w.idle()
+	want, rerr := w.replayView(typ, w.b.Ops(ref.W.GetDUID()), 0)
+	if rerr == nil {
+		if got := d.View(); got != want {
+			return c.Violation("entry-state", "a REALTIME client entered %s by %s while the notification broker was unreachable for it: it reports SUBSCRIBED and reads %s, the stored log replays to %s", typ, mode, clip(got, 400), clip(want, 400))
+		}
+	}
+	if n := nSub(); n != 1 {
+		return c.Violation("subscribed-reported-times", "a REALTIME client whose notification broker is unreachable was told %d times that it became SUBSCRIBED", n)
+	}
+	c.Count("entries_with_unreachable_notification_broker", 1)
+	return nil
 }
 
 func fakemongoDiff(a, b map[string]string) []string {
